@@ -250,8 +250,9 @@ class Tokenizer:
                         ):
                             # may contain unicode escape, replace with normal
                             # char but do not _normalize (?)
-                            if name in ('STRING', 'INVALID'):  # 'URI'?
-                                # remove \ followed by nl (so escaped) from string
+                            if name in ('STRING', 'INVALID', 'URI'):
+                                # remove \ followed by nl (so escaped) from
+                                # string (also from the string in url(""))
                                 value = self.unicodesub(_replstring, found)
                             else:
                                 value = self.unicodesub(_repl, found)
